@@ -3,7 +3,7 @@ from __future__ import annotations
 
 import ast
 
-from .. import evid, astu, types
+from .. import evid, astu, flow, types
 from ..cfg import cfg_of
 from ..model import AnalysisError
 from ..report import key_of
@@ -170,6 +170,14 @@ def r1(R, repo):
   mod = repo.mod(TU)
   P = mod.func('path_aware_map')
   fc = [c for c in astu.func_calls(P) if astu.call_name(c) == 'flatten_dict']
+  if not fc:
+    # a hand-written recursion instead of flatten_dict/unflatten_dict: it must descend into the same mapping types
+    # as flatten_dict does (dict and FrozenDict)
+    tests = [n for n in ast.walk(P.node) if isinstance(n, ast.Call) and astu.call_name(n) == 'isinstance' and len(n.args) == 2]
+    only_dict = [t_ for t_ in tests if astu.src(t_.args[1]) == 'dict']
+    if only_dict:
+      R.fail(key_of(P, 'keep_empty_nodes=True'), (P, only_dict[0]), 'path_aware_map recurses only into `dict` (`%s`): a FrozenDict input or sub-tree is handed to the mapped function whole, so its leaves are not visited and the structure of the result differs from the input' % astu.short(only_dict[0]))
+      return
   R.require(fc, 'path_aware_map no longer calls flatten_dict')
   ken = astu.kwarg(fc[0], 'keep_empty_nodes')
   R.check(astu.is_const(ken, True), key_of(P, 'keep_empty_nodes=True'), (P, fc[0]), evidence=(ken is None and not astu.has_star_kwargs(fc[0]) and len(fc[0].args) < 2) or isinstance(ken, ast.Constant), msg_fail=
@@ -568,8 +576,22 @@ def r6(R, repo):
   R.judge((bool(raises) and bool(stores) and bool(tests)) or (bool(stores) and not raises and not evid.raises_deep(repo, rp, 'ValueError')), ok, key_of(rp, 'unknown path raises before store'), rp,
           'replace_by_pure_dict must raise for a path that is not in the state before storing anything under it')
   ups = [c_ for c_ in astu.func_calls(rp) if astu.call_tail(c_) == 'update' and astu.src(c_.func.value) == astu.params(rp.node)[0]]
-  R.check(len(ups) == 1 and 'current_flat' in astu.names_loaded(ups[0]), key_of(rp, 'state updated from merged flat mapping'), rp,
-          'replace_by_pure_dict must write the merged flat mapping back into the state')
+  key = key_of(rp, 'state updated from merged flat mapping')
+  if len(ups) != 1 or not ups[0].args:
+    R.unsure(key, rp, 'state.update(...) not found in replace_by_pure_dict')
+  else:
+    # the mapping written back must be the *whole* flattened state with the replaced entries merged in: State.update
+    # replaces top-level entries, so a mapping holding only the replaced paths drops their siblings
+    st_par = astu.params(rp.node)[0]
+    maps = [n_ for n_ in astu.names_loaded(ups[0].args[0]) if any(isinstance(t_, ast.Subscript) and astu.src(t_.value) == n_ for a_ in astu.body_walk(rp.node) if isinstance(a_, ast.Assign) for t_ in a_.targets)]
+    full = [n_ for n_ in maps if any(isinstance(d_[0], ast.AST) and any(isinstance(c_, ast.Call) and astu.call_name(c_) == 'to_flat_state' and c_.args and astu.src(c_.args[0]) == st_par for c_ in ast.walk(d_[0])) for d_ in flow.defs(rp, n_))]
+    empty = [n_ for n_ in maps if flow.defs(rp, n_) and all(isinstance(d_[0], ast.Dict) and not d_[0].keys or (isinstance(d_[0], ast.Call) and astu.call_name(d_[0]) == 'dict' and not d_[0].args and not d_[0].keywords) for d_ in flow.defs(rp, n_))]
+    if full:
+      R.ok(key, (rp, ups[0]))
+    elif empty:
+      R.fail(key, (rp, ups[0]), '`%s` writes back a mapping that starts empty and holds only the replaced paths: State.update replaces whole top-level entries, so every leaf of the state that the pure dict does not mention is dropped' % astu.short(ups[0]))
+    else:
+      R.unsure(key, (rp, ups[0]), 'cannot tell what `%s` writes back' % astu.short(ups[0]))
   ff = mod.func('from_flat_state')
   calls = [c_ for c_ in astu.func_calls(ff) if astu.call_name(c_) == 'traversals.unflatten_mapping']
   R.check(len(calls) == 1, key_of(ff, 'unflatten_mapping'), ff, 'from_flat_state must rebuild the nested mapping with unflatten_mapping')
